@@ -43,7 +43,27 @@ def variants(P, seed):
                    ("auto", "nsp"), ("auto", "symbolic")):
         out.append(("%s/%s" % (kc, sr or "default"), src, {"kc": kc, "semiring": sr,
                                                           "ground": {"propagate_evidence": rng.random() < 0.3}}))
+    # the same program with every probability label written as an arithmetic expression of the same value
+    # ((0.15+0.15)::f, (1-0.7)::f): the label reaches `semiring.value` as a compound term
+    esrc = expr_labels(src, rng)
+    out.append(("exprlabel/default", esrc, {"kc": "default", "semiring": None, "ground": {}}))
+    out.append(("exprlabel/symbolic", esrc, {"kc": "auto", "semiring": "symbolic", "ground": {}}))
     return out
+
+
+def expr_labels(src, rng):
+    import re
+    from decimal import Decimal
+
+    def rep(m):
+        p = Decimal(m.group(1))
+        k = rng.randrange(3)
+        if k == 0:
+            return "(%s+%s)::" % (p / 2, p - p / 2)
+        if k == 1:
+            return "(1-%s)::" % (1 - p)
+        return "(%s*0.5)::" % (p * 2)
+    return re.sub(r"(?<![\w.])(\d+\.\d+)::", rep, src)
 
 
 def run(ctx):
